@@ -1,6 +1,6 @@
 PROPERTY = "C16"
 LEVEL = "proof"
-LEAN_MODULES = ["CifModel.Props.C16"]
+LEAN_MODULES = ["CifModel.Props.C16", "CifModel.Props.ReviewC16"]
 REQUIRED = ["CifModel.C16_init_numb_locale_restored", "CifModel.C16_autoinit_numb_locale_restored",
             "CifModel.C16_set_c_saves_current", "CifModel.C16_set_c_failure_keeps"]
 GEN = []
